@@ -13,6 +13,7 @@ EXPLANATION = (
     "connection-closed/timeout; the receive filter raises before the body is read and the client accepts only MSG_RESULT; a "
     "released proxy reconnects before its next send; one thread per oneway request; only construction and the per-request increment "
     "write the sequence counter; the server remembers the request's flags/seq/serializer before anything in the guarded region can fail. "
+    'Also decided: at most one reply per request and a failed receive leaves handleRequest; the 6-byte prefix is read and validated before the rest of the header; a missing CommunicationError handler in _pyroInvoke is a violation. '
     "Not decided: execution counts under fault scripts, what the transport delivers."
 )
 
@@ -398,9 +399,12 @@ def run(ctx, R, tier):
     rs = ctx.fn("Pyro5.protocol.recv_stub")
     rcfg = ctx.cfg(rs)
     recvs = sorted(ctx.calls_to(rs, "Pyro5.socketutil.SocketConnection.recv"), key=lambda c: c.lineno)
-    if len(recvs) != 3:
+    if len(recvs) not in (2, 3):
         raise AnalysisError("recv_stub: expected three recv calls (prefix, header rest, body), found %d" % len(recvs))
-    body_nodes = ctx.node_of(rs, recvs[2])
+    R.check(len(recvs) == 3, "C03-R7", "recv_stub|prefix-read-and-validated-first", "the header is read in two steps: a short prefix that is validated, then the rest", rs.loc(recvs[0]),
+            "the whole header is read before anything is validated: a peer that sends fewer bytes than a header (an HTTP probe, a wrong protocol version) gets no error and is "
+            "not disconnected; the daemon waits for the remaining bytes")
+    body_nodes = ctx.node_of(rs, recvs[-1])
     def type_accepted(atom, pol):
         if isinstance(atom, ast.Compare) and len(atom.ops) == 1 and unparse(atom.comparators[0]) == "accepted_msgtypes" and unparse(atom.left).endswith(".type"):
             return (isinstance(atom.ops[0], ast.NotIn) and pol is False) or (isinstance(atom.ops[0], ast.In) and pol is True)
